@@ -342,13 +342,19 @@ def baseReplacement (A : Acr) (env : Env) (vm : SMap) (variant origRepl : Bytes)
     some (.ambiguity, toStyle A (parse A origRepl) st)
   else (vm.get variant).map (fun r => (.mapEntry, r))
 
-/-- `content → replace` of the hunk for an exact match -/
-def hunkReplacement (A : Acr) (env : Env) (vm : SMap) (line variant origRepl : Bytes) : Option Bytes :=
+/-- where `generate_hunks` looks for the text of the match whose context decides coercion: at the match's own column
+    (`start`; one valid UTF-8 line, so the decoded prefix has the same length) when the source does so
+    (`Gen.coercionContextAtColumn`), else — and as a fallback — at the FIRST place the text occurs in the line -/
+def contextPos (line : Bytes) (start : Nat) (variant : Bytes) : Option Nat :=
+  if Gen.coercionContextAtColumn && variant.isPrefixOf (line.drop start) then some start else findSub line variant
+
+/-- `content → replace` of the hunk for an exact match that starts at byte `start` of the line -/
+def hunkReplacement (A : Acr) (env : Env) (vm : SMap) (line : Bytes) (start : Nat) (variant origRepl : Bytes) : Option Bytes :=
   match baseReplacement A env vm variant origRepl with
   | none => none
   | some (_, r0) =>
     let r1 :=
-      match findSub line variant with
+      match contextPos line start variant with
       | some p =>
         match env.coerce (immediateContext line p (p + variant.length)) variant r0 with
         | some c => c
@@ -392,7 +398,7 @@ def Cfg.vmap (cfg : Cfg) : SMap :=
 def exactHunks (cfg : Cfg) (vm : SMap) (line : Bytes) : List (Nat × Bytes) → Option (List Edits.Edit)
   | [] => some []
   | m :: ms =>
-    match hunkReplacement cfg.A cfg.env vm line m.2 cfg.replace, exactHunks cfg vm line ms with
+    match hunkReplacement cfg.A cfg.env vm line m.1 m.2 cfg.replace, exactHunks cfg vm line ms with
     | some r, some es => some ({ before := m.2, after := r, start := m.1, stop := m.1 + m.2.length } :: es)
     | _, _ => none
 
